@@ -107,16 +107,16 @@ Qed.
 (* where loop i stands after one of its own steps *)
 Lemma lookup_pc s i a p :
   loop_at s i a p ->
-  loop_at (fst (lookup s i)) i a (if at_select p then PLooked (hunt_find (amac a) (hunt s)) else p).
+  loop_at (fst (lookup s i)) i a (if at_select p then looked_pc s a else p).
 Proof.
-  unfold loop_at, lookup. intros Hl. rewrite Hl. simpl.
+  unfold loop_at, lookup, looked_pc. intros Hl. rewrite Hl. simpl.
   destruct p; simpl; auto; apply (set_pc_same _ _ _ _ Hl).
 Qed.
 
 Definition check_pc_of (c : cfg) (s : state) (a : addr) (p : pc) : pc :=
   match p with
-  | PLooked (Some target) => if closed s then PDone else PSend (announce c (amac target)) true
-  | PLooked None => if closed s then PDone else PSend (restore c (amac a)) false
+  | PLooked (Some target) => PSend (announce c (amac target)) true
+  | PLooked None => PSend (restore c (amac a)) false
   | _ => p
   end.
 
@@ -148,10 +148,10 @@ Proof.
     + assert (Hown : loop_at s i a1 p1) by exact Hli.
       destruct e; try discriminate; simpl in He; apply Nat.eqb_eq in He; subst i0; simpl in Hl.
       * destruct (loop_at_inj _ _ _ _ _ _ Hl (lookup_pc s i a1 p1 Hown)) as [-> Hq].
-        destruct (at_select p1); [discriminate|]. subst p1. apply (Hinv i a1 f Hown).
+        destruct (at_select p1); [unfold looked_pc in Hq; destruct (closed s); discriminate|]. subst p1. apply (Hinv i a1 f Hown).
       * destruct (loop_at_inj _ _ _ _ _ _ Hl (check_pc c s i a1 p1 Hown)) as [-> Hq].
         destruct p1; simpl in Hq; try discriminate; try (rewrite <- Hq in Hown; apply (Hinv i a1 f Hown)).
-        destruct found; destruct (closed s); inversion Hq; reflexivity.
+        destruct found; inversion Hq; reflexivity.
       * destruct (loop_at_inj _ _ _ _ _ _ Hl (send_pc s i a1 p1 Hown)) as [-> Hq].
         destruct p1; simpl in Hq; try discriminate. destruct cont; discriminate.
     + exfalso. unfold loop_at in Hl.
@@ -190,10 +190,10 @@ Proof.
   - destruct e; try discriminate; simpl in He; apply Nat.eqb_eq in He; subst i0.
     + exfalso. simpl in Hl'. unfold lookup, loop_at in *. rewrite Hl in Hl'. simpl in Hl'.
       destruct p; simpl in Hl'; try (rewrite Hl in Hl'; inversion Hl'; subst; simpl in *; congruence);
-        rewrite (set_pc_same _ _ _ _ Hl) in Hl'; inversion Hl'; subst; discriminate.
+        rewrite Hc in Hl'; rewrite (set_pc_same _ _ _ _ Hl) in Hl'; inversion Hl'; subst; discriminate.
     + exfalso. simpl in Hl'. unfold check, loop_at in *. rewrite Hl in Hl'. simpl in Hl'.
       destruct p; simpl in Hl'; try (rewrite Hl in Hl'; inversion Hl'; subst; simpl in *; congruence).
-      rewrite (set_pc_same _ _ _ _ Hl) in Hl'. rewrite Hc in Hl'.
+      rewrite (set_pc_same _ _ _ _ Hl) in Hl'.
       destruct found; inversion Hl'; subst; discriminate.
     + split; auto.
       destruct p; try (exfalso; simpl in Hl'; unfold send, loop_at in *; rewrite Hl in Hl'; simpl in Hl'; rewrite Hl in Hl';
@@ -352,7 +352,7 @@ Proof.
       assert (Htx : (tx <= t + P)%Z) by (pose proof (Hord x j3 _ _ _ _ ltac:(lia) Hx E3); lia).
       destruct (Hquiet x tx e0 ltac:(lia) Hx Htx) as [H _]. rewrite H. reflexivity. }
     destruct (stop_undone c (state_before c tr j1) a i p1 [] x2 x3 Hc Hlj1 Hsel1 Hc_1 Hh_1
-                eq_refl eq_refl eq_refl N2 C2 N3) as [Hl4 [s5 [Estep L5]]].
+                eq_refl eq_refl eq_refl N2 N3) as [Hl4 [s5 [Estep L5]]].
     assert (Hs4 : state_before c tr j3 = final c (state_before c tr j1) ([] ++ [Lookup i] ++ x2 ++ [Check i] ++ x3)).
     { unfold state_before at 1. rewrite Hsplit, final_app. reflexivity. }
     rewrite <- Hs4 in Estep, Hl4.
